@@ -24,7 +24,7 @@ if OFFSET:
     datetime.datetime = ShiftedDateTime
     time.time = lambda: _real_time() + OFFSET
 
-sys.path[:0] = ["/repo", os.path.dirname(os.path.dirname(os.path.abspath(__file__)))]
+sys.path[:0] = [os.environ.get("VERIF_REPO", "/repo"), os.path.dirname(os.path.dirname(os.path.abspath(__file__)))]
 from mc import core, simx  # noqa: E402
 from props import simlife as L  # noqa: E402
 
